@@ -120,8 +120,13 @@ def oracle(c, st):
                     e1, e2 = sub(b, a), sub(cc, b)
                     if len2(cross(e1, e2)) < Fr(1, 10 ** 14) * len2(e1) * len2(e2) or len2(e1) < TOL_COL ** 2 or len2(e2) < TOL_COL ** 2:
                         return ('C04:closed-collinear' + (':after-retrace' if retraced else ''), 'vertex %d of a closed loop is collinear with its neighbours' % i)
+                f32 = bool(st is not None and st.f32)
                 for q in v:
-                    if abs(dot(n, sub(v[0], q))) > Fr(1, 10 ** 6): return ('C04:closed-nonplanar', 'closed loop is not planar')
+                    # 1e-6 (ten times the crate's own 1e-7) for the f64 build; the f32 build stores the vertices and the
+                    # normal rounded to 24 bits, which alone moves n.(v0-q) by a few ulps of the coordinates: allow for it
+                    tolq = Fr(1, 10 ** 6)
+                    if f32: tolq += Fr(16, 2 ** 23) * (max(abs(x) for x in v[0] + q) + sum(abs(x) for x in sub(v[0], q)))
+                    if abs(dot(n, sub(v[0], q))) > tolq: return ('C04:closed-nonplanar', 'closed loop is not planar')
                 # no two non-adjacent edges of a closed loop properly cross (clear crossings only: interior to both by 1%, angle > 0.6 deg)
                 ax = dominant_axis(n); pv2 = [project(q, ax) for q in v]
                 for i in range(m):
@@ -143,8 +148,9 @@ def oracle(c, st):
             # coincident with, its cyclic neighbours in the outline as it stood before the call)
             pv, cv = prev['v'], cur['v']
             m = len(pv)
-            def redundant(i):
-                a, b, cc = pv[i - 1], pv[i], pv[(i + 1) % m]
+            def redundant(i, vs=None):
+                vs = pv if vs is None else vs; mm = len(vs)
+                a, b, cc = vs[i - 1], vs[i], vs[(i + 1) % mm]
                 if max(abs(x) for x in sub(a, b)) < TOL_COL or max(abs(x) for x in sub(cc, b)) < TOL_COL: return True
                 return len2(cross(sub(b, a), sub(cc, b))) < TOL_COL ** 2 * Fr(101, 100)
             ok_shapes = []
@@ -153,7 +159,9 @@ def oracle(c, st):
                     if pv[df:m - dl] == cv: ok_shapes.append((df, dl))
             if not ok_shapes:
                 return ('C04:close-changed-outline', 'close() returned Ok but the vertex list is not the previous one minus first/last vertex')
-            if not any((not df or redundant(0)) and (not dl or redundant(m - 1)) for df, dl in ok_shapes):
+            # close() examines the last vertex first; the first vertex is then judged in the outline WITHOUT a dropped
+            # last vertex (e.g. ... v0', q then close: the spike v0' -> q -> v0 goes, after which v0 duplicates v0')
+            if not any((not dl or redundant(m - 1)) and (not df or redundant(0, pv[:m - dl])) for df, dl in ok_shapes):
                 return ('C04:close-dropped-corner', 'close() dropped a vertex that is a genuine corner of the outline')
         prev = cur
     return None
